@@ -43,8 +43,14 @@ def clock : ModelEntries :=
 def timerqueue : ModelEntries :=
   ("timerqueue", [("run", { admitH := noAdmit, states := fun _ => 0, query := TimerQueue.runQuery })])
 
+/-- driver-only configuration (trace inclusion, no reflection theorem: too many states for the
+    kernel): three timers with equal due times — the smallest case in which a non-FIFO walk
+    (`<` instead of `<=`) becomes visible. -/
+def cfgThreeEqual : TimerOp.Config :=
+  ⟨[[.start 0, .start 1, .start 2, .waitDone, .shutdown], [.runLoop]], [1, 1, 1], 1⟩
+
 def timerop : ModelEntries :=
-  ("timerop", TimerOp.configs.map (fun (n, c) =>
+  ("timerop", (TimerOp.configs ++ [("three_equal", cfgThreeEqual)]).map (fun (n, c) =>
       (n, mkEntry (TimerOp.sys c) TimerOp.obsOf (TimerOp.final c))))
 
 end Unifex.Driver.Entries
